@@ -6,6 +6,7 @@ import (
 	"net/http"
 
 	"github.com/buildbuildio/pebbles/common"
+	"github.com/buildbuildio/pebbles/gqlerrors"
 	"github.com/buildbuildio/pebbles/requests"
 	"github.com/samber/lo"
 )
@@ -162,11 +163,17 @@ func (q *MultiOpQueryer) queryBatch(inputs []*requests.Request) ([]map[string]in
 		return nil, fmt.Errorf("expected %d responses from %s, got %d", len(inputsToFetch), q.url, len(resps))
 	}
 
+	// the errors of every failed request of the batch are reported, not just those of the first
+	var errs gqlerrors.ErrorList
+	for _, resp := range resps {
+		errs = append(errs, resp.Errors...)
+	}
+	if len(errs) != 0 {
+		return nil, errs
+	}
+
 	// format the result as needed
 	for i, resp := range resps {
-		if len(resp.Errors) != 0 {
-			return nil, resp.Errors
-		}
 		// an answer without errors must carry data
 		if resp.Data == nil {
 			return nil, fmt.Errorf("response %d from %s carries neither data nor errors", i, q.url)
